@@ -9,7 +9,7 @@ from mcv.ref import names as N
 
 AKAI_NAMES = ["A", "A L", "A R", "A-L", "A-R", "A  L", "A -L", "A -R", "AL", "L", "-L", "B L", "B R", "A.L"]
 AKAI_N4 = ["A", "A L", "A R", "A -L", "A  L", "A  R"]
-ROLAND_NAMES = ["A", "A L", "A R", "A-L", "a L", "A (2)", "A (2) L", "A R ", "B-R", "A l", "A r"]
+ROLAND_NAMES = ["A", "A L", "A R", "A-L", "a L", "A (2)", "A (2) L", "A R ", "B-R", "A l", "A r", "A  L", "A  R"]   # (two blanks: another stem than 'A L' / 'A R')
 LEN_EQ = [10, 10, 10, 10]
 LEN_UNEQ = [10, 7, 9, 8]
 LEN_ONE = [1, 1, 1, 1]                  # a single frame
@@ -150,7 +150,7 @@ class Check(CheckBase):
     title = "Left/right pairs merge into one stereo file; no sample is lost or duplicated"
     rule = ("all ordered k-tuples of sibling names (every ordering of every multiset) over a near-collision alphabet: AKAI "
             "volume, 14 names, k<=3 (quick) / k<=4 (thorough), plus all 4-tuples over the reduced 6-name alphabet and over {A-L, A -R, A -L, A-R}; pair stems covering every letter and digit; 3-tuples over {A, A., A L, A R, A. L, A. R} and all orders of the two dotted / undotted pairs; Roland "
-            "performance, 11 names (incl. lower-case 'l' / 'r' endings, which are not L/R forms), k<=2 (quick) / k<=3 (thorough); equal lengths (10 frames), and unequal lengths, differing sample "
+            "performance, 13 names (incl. stems that differ only in the length of a blank run, lower-case 'l' / 'r' endings, which are not L/R forms), k<=2 (quick) / k<=3 (thorough); equal lengths (10 frames), and unequal lengths, differing sample "
             "rates, single-frame samples and samples of 2049 frames (one more than the transcoder block) for k<=2 (quick) / "
             "all (thorough); AKAI header names that differ from the directory names (rotated among the siblings / 'DRUM L', 'DRUM R'), S1000- and S3000-type samples mixed in one volume, "
             "for k<=2 over 14 names and k=3 over 6; 2- and 3-tuples over 8 names that become an L/R form only when a trailing dot / blank is "
